@@ -85,15 +85,15 @@ GROUP = dict(
     name="mass", bin="avh_mass",
     model_spec="MCMassLedger.tla", trace_spec="MassLedgerTrace.tla", trace_cfg="MassLedgerTrace.cfg",
     models={
-        "quick": [dict(cfg="MCMassLedger_quickC.cfg", emit=True, max_emit=6000, workers=8, timeout=120),
-                  dict(cfg="MCMassLedger_quickL1.cfg", emit=True, max_emit=14000, workers=8, timeout=180, may_be_zero=("Load",)),
-                  dict(cfg="MCMassLedger_quickL2.cfg", emit=True, max_emit=8000, workers=8, timeout=180)],
-        "thorough": [dict(cfg="MCMassLedger_thoroughC.cfg", emit=True, max_emit=40000, workers=8, timeout=900),
-                     dict(cfg="MCMassLedger_thoroughL1.cfg", emit=True, max_emit=120000, workers=8, timeout=1800, may_be_zero=("Load",)),
-                     dict(cfg="MCMassLedger_thoroughL2.cfg", emit=True, max_emit=60000, workers=8, timeout=1800),
+        "quick": [dict(cfg="MCMassLedger_quickC.cfg", emit=True, max_emit=1500, workers=8, timeout=120),
+                  dict(cfg="MCMassLedger_quickL1.cfg", emit=True, max_emit=3000, workers=8, timeout=180, coverage=False),
+                  dict(cfg="MCMassLedger_quickL2.cfg", emit=True, max_emit=1500, workers=8, timeout=180)],
+        "thorough": [dict(cfg="MCMassLedger_thoroughC.cfg", emit=True, max_emit=15000, workers=8, timeout=900),
+                     dict(cfg="MCMassLedger_thoroughL1.cfg", emit=True, max_emit=40000, workers=8, timeout=1800, may_be_zero=("Load",)),
+                     dict(cfg="MCMassLedger_thoroughL2.cfg", emit=True, max_emit=15000, workers=8, timeout=1800),
                      dict(cfg="MCMassLedger_thoroughL4.cfg", emit=False, workers=8, timeout=1800, may_be_zero=("Load",))],
     },
-    gen_n={"quick": 1500, "thorough": 20000},
+    gen_n={"quick": 500, "thorough": 10000},
     per_case_ms=20000,
     nontrivial=nontrivial,
     rule=RULE,
